@@ -203,6 +203,19 @@ def run(ctx):
                what="replay of WalRecord::%s must call exactly LpgStore::%s (found %s): reopened state differs from the logged one" % (v, exp, got),
                where=app.loc())
         for (bi, t, c) in arms.get(v, []):
+            # the arm applies the record whatever it carries: the store call hangs only on the variant test (and the loop),
+            # not on a test of the record's own content (a replay that skips, say, NULL values reopens to another state)
+            def _mentions(z):
+                if isinstance(z, str):
+                    return z.startswith("cell:%s." % v)
+                if isinstance(z, (set, frozenset, list, tuple)):
+                    return any(_mentions(y) for y in z)
+                return False
+            extra = [f for f in ax.facts_at(bi) if not (f[0] == "variant" and f[1].endswith("WalRecord")) and _mentions(f[1:])]
+            ctx.ob("R4", "replay#%s#unconditional" % v, not extra,
+                   what="replay applies WalRecord::%s only when a test of the record's own content holds (%s): records the writer "
+                        "logged are skipped at reopen, so the reopened state differs from the one that was closed"
+                        % (v, "; ".join(str(f[:3]) for f in extra[:2])), where=app.loc(t["line"]))
             cf = P.fns[callee_name(t)]
             for i, a in enumerate(t["args"]):
                 pn = cf.names().get(i + 1)
